@@ -1,8 +1,8 @@
 package props
 
 import (
-	"go/types"
 	"fmt"
+	"go/types"
 	"strings"
 
 	"gmslverif/fw"
